@@ -60,7 +60,7 @@ def _case(draw, tier):
             sc[0] = first
     nsched = 6 if tier == "quick" else 16
     schedules = [draw(st.lists(st.integers(0, k - 1), min_size=2, max_size=40)) for _ in range(nsched)]
-    return {"scripts": scripts, "schedules": schedules}
+    return {"scripts": scripts, "schedules": schedules, "instance": draw(st.sampled_from(["default", "default", "no-create-database"]))}
 
 
 def _exec_op(fs, state: dict, sid: int, op) -> tuple:
@@ -110,7 +110,20 @@ def _exec_op(fs, state: dict, sid: int, op) -> tuple:
         return ("err", etype_name(e), getattr(e, "errno", None))
 
 
-def _setup(fs, k: int) -> list[dict]:
+def _new_fs(instance: str):
+    if instance == "default":
+        return new_instance()
+    if instance == "no-create-database":
+        # databases come from CREATE DATABASE only; connect still creates the schema it is given
+        return new_instance(create_database_on_connect=False)
+    raise InvalidCase()
+
+
+def _setup(fs, k: int, instance: str = "default") -> list[dict]:
+    if instance == "no-create-database":
+        pre = fs.connect().cursor()
+        for d in ("DB0", "DBX", "DBY"):
+            pre.execute(f"CREATE DATABASE {d}")
     boot = fs.connect("DB0", "S0")
     cur = boot.cursor()
     cur.execute("CREATE TABLE SHARED (TAG INT, OWNER INT)")
@@ -130,15 +143,15 @@ def _final(fs) -> str:
     return repr((s["schemas"], s["tables"], s["columns"], sorted(s["rows"].items())))
 
 
-def _serial_references(scripts) -> dict:
+def _serial_references(scripts, instance: str = "default") -> dict:
     """Every statement-level interleaving of the scripts, each on a fresh instance (no scheduler)."""
     k = len(scripts)
     idx = [sid for sid, sc in enumerate(scripts) for _ in sc]
     refs = {}
     for order in sorted(set(itertools.permutations(idx))):
-        fs = new_instance()
+        fs = _new_fs(instance)
         try:
-            states = _setup(fs, k)
+            states = _setup(fs, k, instance)
             pos = [0] * k
             outs: list = [[None] * len(sc) for sc in scripts]
             for sid in order:
@@ -169,11 +182,13 @@ def run_schedules(case, ctx: Ctx) -> None:
         sched = instr.Scheduler(k, schedule)
         outs: list = [[None] * len(sc) for sc in scripts]
         crashed: list = []
+        instance = case.get("instance", "default")
         with instr.installed(sched.hook):
-            fs = new_instance()
+            fs = _new_fs(instance)
         try:
             # the instance was created through the shim, so every cursor handed to a session is proxied
-            states = _setup(fs, k)
+            states = _setup(fs, k, instance)
+            ctx.cls(f"instance:{instance}")
 
             def body(sid: int) -> None:
                 instr.set_session(sid)
@@ -214,7 +229,7 @@ def run_schedules(case, ctx: Ctx) -> None:
                     if op[0] in MULTI:
                         ctx.cls(f"split:{MULTI[op[0]]}")
             if refs is None:
-                refs = _serial_references(scripts)
+                refs = _serial_references(scripts, instance)
             key = (repr(outs), _final(fs))
             if key not in refs:
                 # which part disagrees with every serial order?
@@ -257,14 +272,20 @@ def _free_case(draw, tier):
         "same_db": draw(st.booleans()),
         "mode": draw(st.sampled_from(["connect+insert", "connect-only", "insert-only", "create-tables"])),
         "context": draw(st.sampled_from(["arguments", "arguments", "none"])),
+        "instance": draw(st.sampled_from(["default", "default", "no-create-database"])),
     }
 
 
 def _run_free_here(case, ctx) -> None:
     n, m, mode = case["sessions"], case["inserts"], case["mode"]
     bare = case.get("context", "arguments") == "none"  # sessions opened without database/schema (they use qualified names anyway)
-    fs = new_instance()
+    instance = case.get("instance", "default")
+    fs = _new_fs(instance)
     try:
+        if instance == "no-create-database":
+            pre_ = fs.connect().cursor()
+            for d in ["DBF", "NEWDB"] + [f"NEWDB{i}" for i in range(n)]:
+                pre_.execute(f"CREATE DATABASE {d}")
         boot = fs.connect("DBF", "SF")
         boot.cursor().execute("CREATE TABLE DBF.SF.SHARED (TAG INT)")
         pre = [fs.connect() if bare else fs.connect("DBF", "SF") for _ in range(n)] if mode in ("insert-only", "create-tables") else None
@@ -296,7 +317,7 @@ def _run_free_here(case, ctx) -> None:
             t.start()
         for t in threads:
             t.join(60)
-        ctx.cls(f"free:{mode}", f"free:same_db={case['same_db']}", f"free:context={case.get('context', 'arguments')}")
+        ctx.cls(f"free:{mode}", f"free:same_db={case['same_db']}", f"free:context={case.get('context', 'arguments')}", f"free:instance={instance}")
         ctx.nontrivial = True
         if any(t.is_alive() for t in threads):
             ctx.fail(f"C19|free-running|hang|{mode}", "a thread did not finish within 60 s")
